@@ -345,27 +345,38 @@ def slicePut (c : Code) (h : H) (a : SliceObj) : H :=
 
 def setMem (h : H) (b : Nat) (f : Bytes → Bytes) : H := { h with mem := upd h.mem b (f (h.mem b)) }
 
-/-- `consoleEncoder.EncodeEntry` + `writeContext` -/
-def encodeConsole (c : Code) (orc : Orc) (h : H) (p : Parent) (j : CJob) : Nat × H :=
+/-- `consoleEncoder.EncodeEntry`, first part: `line := bufferpool.Get()`, the columns through the pooled slice
+    encoder (`getSliceEncoder` … `putSliceEncoder`), the message -/
+def consoleHead (c : Code) (orc : Orc) (h : H) (j : CJob) : Nat × H :=
   let l := bufGet orc h
   let line := l.1
   let a := sliceGet orc l.2
   let arr : SliceObj := { a.1 with elems := a.1.elems ++ j.cols }
   let h1 := setMem a.2 line fun _ => Console.joinSep j.sepc arr.elems
   let h2 := slicePut c h1 arr
-  let h3 := match j.msg with
-    | some m => setMem h2 line fun b => Console.sepIf j.sepc b ++ m
-    | none => h2
-  -- writeContext: context := c.jsonEncoder.Clone(); addFields; closeOpenNamespaces
-  let s2 := closeNs (cloneBody orc (cfgCheck (clone c orc h3 p) p) p j.fields)
+  match j.msg with
+  | some m => (line, setMem h2 line fun b => Console.sepIf j.sepc b ++ m)
+  | none => (line, h2)
+
+/-- `writeContext`: `context := c.jsonEncoder.Clone()`, `addFields`, `closeOpenNamespaces`, copy into the line, and
+    the deferred `context.buf.Free(); putJSONEncoder(context)` -/
+def consoleCtx (c : Code) (orc : Orc) (h : H) (line : Nat) (p : Parent) (j : CJob) : H :=
+  let s2 := closeNs (cloneBody orc (cfgCheck (clone c orc h p) p) p j.fields)
   let cb := s2.h.mem (s2.o.buf.getD 0)
   let h4 := if cb.isEmpty then s2.h else setMem s2.h line fun b => Console.sepIf j.sepc b ++ 123 :: (cb ++ [125])
-  -- deferred: context.buf.Free(); putJSONEncoder(context)
-  let h5 := putJson c (bufFree h4 (s2.o.buf.getD 0)) s2.o
+  putJson c (bufFree h4 (s2.o.buf.getD 0)) s2.o
+
+/-- stack trace and line ending -/
+def consoleTail (h : H) (line : Nat) (j : CJob) : H :=
   let h6 := match j.stack with
-    | some st => setMem h5 line fun b => b ++ 10 :: st
-    | none => h5
-  (line, setMem h6 line fun b => b ++ j.ending)
+    | some st => setMem h line fun b => b ++ 10 :: st
+    | none => h
+  setMem h6 line fun b => b ++ j.ending
+
+/-- `consoleEncoder.EncodeEntry`: returns the line buffer -/
+def encodeConsole (c : Code) (orc : Orc) (h : H) (p : Parent) (j : CJob) : Nat × H :=
+  let hd := consoleHead c orc h j
+  (hd.1, consoleTail (consoleCtx c orc hd.2 hd.1 p j) hd.1 j)
 
 /-- the pure console line: `Console.consoleLine` with its inputs already resolved (`consoleLine_pure`) -/
 def pureConsole (p : Parent) (j : CJob) : Bytes :=
@@ -559,5 +570,27 @@ def pstep (s : PS) : Op → PS
   | .gc _ => s
 
 def prun (s : PS) (ops : List Op) : PS := ops.foldl pstep s
+
+/-! ### the invariant of the heap machine -/
+
+/-- the buffers in `owned` are allocated, pairwise distinct and not in the pool; the pool has no duplicates -/
+def Owns (h : H) (owned : List Nat) : Prop :=
+  (h.bufPool ++ owned).Nodup ∧ ∀ x ∈ h.bufPool ++ owned, x < h.next
+
+/-- every pooled object satisfies its put-invariant; every buffer that is in flight or owned by a With-clone is
+    owned (so: not in the pool, not referenced by a pooled encoder); no fault has happened -/
+structure Inv (h : H) : Prop where
+  json : ∀ o ∈ h.jsonPool, o.PutInv
+  slice : ∀ a ∈ h.slicePool, a.PutInv
+  stack : ∀ st ∈ h.stackPool, st.PutInv
+  ce : ∀ c ∈ h.cePool, c.PutInv
+  errCore : ∀ e ∈ h.errPoolCore, e.PutInv
+  errZap : ∀ e ∈ h.errPoolZap, e.PutInv
+  owns : Owns h (h.inflight ++ h.live)
+  nofault : h.fault = false
+
+/-- the heap machine and the pool-free run agree on everything observable, now and later -/
+def Rel (h : H) (ps : PS) : Prop :=
+  h.inflight.map h.mem = ps.inflight ∧ h.live.map h.mem = ps.live ∧ h.out = ps.out
 
 end ZapVerif.Pools
